@@ -304,6 +304,13 @@ let run_case (x : sx) : Stdlib.String.t =
                           | L (A "e" :: inner) -> BE (List.map rstep_of inner)
                           | L (A "n" :: inner) -> BN (List.map rstep_of inner)
                           | L (A "c" :: L inner :: A o :: lit) -> BC (List.map rstep_of inner, op_of o, cp lit)
+                          | L [A "l"; L inner; A ne; L lv] ->
+                              let l = match lv with
+                                | A "s" :: A q :: body -> LStr (n_of_int (int_of_string q), cp body)
+                                | [A "b"; A b; A sp] -> LBool (b = "1", nat_of_int (int_of_string sp))
+                                | [A "n"; A sp] -> LNull (nat_of_int (int_of_string sp))
+                                | _ -> failwith "bad literal" in
+                              BL (List.map rstep_of inner, ne = "1", l)
                           | _ -> failwith "bad basic query" in
                         FQ (List.map (function L bs -> List.map bq_of bs | _ -> failwith "bad conjunction") conjs)
                     | L (A "8" :: L inner :: A o :: lit) -> FC (List.map rstep_of inner, op_of o, cp lit)
